@@ -351,7 +351,7 @@ def wait(filtered, pattern):
         sx.reach("wait-hit")
 
 
-def wait_threads(filtered, nframes, prior):
+def wait_threads(filtered, nframes, prior, preempt=0):
     """frames delivered by a second thread while the caller enters / sits in wait(): every schedule at lock
     granularity.  The caller gets a matching entry that arrived after it started waiting, or None."""
     cons = emcy().EmcyConsumer()
@@ -359,7 +359,7 @@ def wait_threads(filtered, nframes, prior):
         cons.on_emcy(0x81, _frame("old"), 1)
     want = sx.fresh_int("want", 0, 0xFFFF)
     frames = [_frame("f%d" % i) for i in range(nframes)]
-    sched = sx.scheduler()
+    sched = sx.scheduler(preempt=preempt)
 
     def feeder():
         for i, f in enumerate(frames):
@@ -409,7 +409,7 @@ def wait_late_match():
     sx.reach("wait-late")
 
 
-def two_waiters(filtered):
+def two_waiters(filtered, preempt=0):
     """Two threads wait on the same consumer while a third delivers one frame (every schedule at lock
     granularity): every waiter that was parked in wait() when the frame arrived, and whose filter matches, gets
     that entry - a frame wakes all waiters, not just one."""
@@ -417,7 +417,7 @@ def two_waiters(filtered):
     want = sx.fresh_int("want", 0, 0xFFFF)
     f = _frame("f")
     code, reg, data = _fields(f)
-    sched = sx.scheduler()
+    sched = sx.scheduler(preempt=preempt)
     res = {}
     parked = {}
 
